@@ -20,6 +20,7 @@ CFG: dict = {}
 MODEL: dict = {}
 ITEMS: list = []
 STATE = None
+TREE = None
 COUNTERS = {"nontrivial": 0, "paths": 0}
 SAMPLES: list = []
 LAST_REASON = ""
@@ -35,18 +36,25 @@ def family_for(cfg):
 
 
 def query_family(tier, keys):
-    """contents sets for query harnesses: richer shapes than the step family (up to 4 keys), fewer value
-    variants: all-short (everything embedded), all-long (everything hashed), mixed."""
+    """contents sets for query harnesses, up to 3 (quick) / 4 (thorough) keys.  Value patterns: all-long
+    (everything hashed), all-short (everything embedded in the root), mixed.  Quick: every <=3-subset of
+    the pool once, the pattern rotating with the subset index (64 tries for 7 keys); thorough: every
+    pattern for every <=4-subset."""
     import itertools
     out = []
     n = len(keys)
     short, long_ = b"\x01", hc.LONG_A
     sizes = (0, 1, 2, 3) if tier == "quick" else (0, 1, 2, 3, 4)
+    idx = 0
     for size in sizes:
         for sub in itertools.combinations(range(n), size):
             pats = [[long_] * size, [short] * size] if size else [[]]
             if size >= 2:
                 pats.append([(long_ if i % 2 else short) for i in range(size)])
+                pats.append([(short if i % 2 else long_) for i in range(size)])
+            if tier == "quick":
+                pats = [pats[idx % len(pats)]]
+            idx += 1
             for pat in pats:
                 out.append({keys[i]: v for i, v in zip(sub, pat)})
     return out
@@ -58,6 +66,28 @@ def configure(cfg):
     MODEL = dict(family_for(cfg)[cfg["mi"]])
     ITEMS = sorted(MODEL.items())
     STATE = hc.canonical_state(MODEL)
+    if cfg.get("build") == "history":
+        # the trie is produced by the real code through a history with inserts of M + one extra pool key and
+        # the deletion of that key again (exercises split + collapse); contents are M again
+        keys = hc.key_pool(cfg["kpool"], cfg.get("seed", 0))
+        extras = [k for k in keys if k not in MODEL]
+        db = {}
+        t = HexaryTrie(db)
+        order = sorted(MODEL, reverse=bool(cfg["mi"] % 2))
+        x = extras[cfg["mi"] % len(extras)] if extras else None
+        for i, k in enumerate(order):
+            t.set(k, MODEL[k])
+            if x is not None and i == 0:
+                t.set(x, hc.LONG_B if cfg["mi"] % 3 else b"\x02")
+        if x is not None:
+            if not order:
+                t.set(x, hc.LONG_B)
+            t.delete(x)
+        STATE = (t.root_hash, dict(db), None)
+    global TREE
+    TREE = mpt.tree_of(MODEL)
+    if TREE is not None:
+        mpt.ref(TREE)       # fills the per-node encoding caches natively
     if cfg.get("lift", True):
         stubs.lift_tables()
     COUNTERS["nontrivial"] = 0
@@ -133,3 +163,269 @@ WARM = {
     "h_lookup": lambda cfg: [(b"\x12",), (b"",), (b"\x12\x34",)],
     "r_lookup": lambda cfg: [(b"\xff",)],
 }
+
+
+# ------------------------------------------------------------------------------- C10: NodeIterator
+def spec_succ(k):
+    """smallest stored key strictly greater than k (linear scan over the sorted contents)"""
+    for key, _v in ITEMS:
+        if key > k:
+            return key
+    return None
+
+
+def h_next(k: bytes) -> bool:
+    """
+    pre: len(k) <= CFG["maxlen"]
+    post: _
+    """
+    from trie.iter import NodeIterator
+    stubs.reset_caches()
+    t, _db = fresh_trie()
+    try:
+        got = NodeIterator(t).next(k)
+    except Exception as e:
+        return _fail(f"next raised {type(e).__name__}: {e}")
+    exp = spec_succ(k)
+    if got != exp:
+        return _fail(f"next returned {got!r}, strict successor is {exp!r}")
+    COUNTERS["paths"] += 1
+    if exp is not None:
+        COUNTERS["nontrivial"] += 1
+    if len(SAMPLES) < 2:
+        SAMPLES.append({"contents": [k_.hex() for k_, _ in ITEMS], "query": concrete(k).hex(), "successor": None if exp is None else concrete(exp).hex()})
+    return True
+
+
+def r_next(k: bytes) -> bool:
+    """
+    reachability twin: the query is itself a stored key that has a successor
+    pre: len(k) <= CFG["maxlen"]
+    post: _
+    """
+    ok = h_next(k)
+    if ok and spec_get(k) != b"" and spec_succ(k) is not None:
+        return False
+    return ok
+
+
+def h_iter(which: int) -> bool:
+    """
+    keys()/items()/values()/nodes()/next() have no symbolic input: `which` selects the obligation
+    pre: 0 <= which <= 4
+    post: _
+    """
+    from vf.xutil import notrace, pick
+    w = pick(which, 5)
+    with notrace():
+        return _iter_concrete(w)
+
+
+def _iter_concrete(w):
+    from trie.iter import NodeIterator
+    stubs.reset_caches()
+    t, _db = fresh_trie()
+    it = NodeIterator(t)
+    try:
+        if w == 0:
+            got = list(it.keys())
+            if got != [k for k, _ in ITEMS]:
+                return _fail(f"keys() yielded {got!r}, contents in order are {[k for k, _ in ITEMS]!r}")
+        elif w == 1:
+            got = list(it.items())
+            if got != ITEMS:
+                return _fail(f"items() yielded {got!r}")
+        elif w == 2:
+            got = list(it.values())
+            if got != [v for _, v in ITEMS]:
+                return _fail(f"values() yielded {got!r}")
+        elif w == 3:
+            got = list(it.nodes())
+            tree = TREE
+            exp = mpt.all_nodes(tree)
+            if tree is None:
+                exp = [((), None)]       # the blank root is yielded once
+            if [tuple(p) for p, _n in got] != [p for p, _n in exp]:
+                return _fail(f"nodes() prefixes {[tuple(p) for p, _ in got]} differ from the pre-order of the canonical trie {[p for p, _ in exp]}")
+            for (p, n), (_p2, en) in zip(got, exp):
+                d = mpt.describe(en)
+                if (int(n.node_type), tuple(tuple(s) for s in n.sub_segments), n.value, tuple(n.suffix)) != d:
+                    return _fail(f"nodes(): node at {tuple(p)} is {n}, canonical trie has {d}")
+                tn = t.traverse(p)
+                if tn != n:
+                    return _fail(f"nodes(): node at {tuple(p)} differs from traverse() of its prefix")
+        else:
+            first = ITEMS[0][0] if ITEMS else None
+            if it.next() != first or it.next(None) != first:
+                return _fail(f"next() returned {it.next()!r}, smallest key is {first!r}")
+    except Exception as e:
+        return _fail(f"iteration ({w}) raised {type(e).__name__}: {e}")
+    COUNTERS["paths"] += 1
+    COUNTERS["nontrivial"] += 1 if ITEMS else 0
+    return True
+
+
+WARM.update({
+    "h_next": lambda cfg: [(b"\x12",), (b"",), (b"\x12\x34",), (b"\xff\xff",)],
+    "r_next": lambda cfg: [(b"\xff",)],
+    "h_iter": lambda cfg: [(0,), (3,)],
+})
+
+
+# ------------------------------------------------------------------------------- C08: traverse / traverse_from
+def _sym_nibbles(path):
+    """an unvalidated Nibbles instance over (possibly symbolic) ints: Nibbles(x) returns a Nibbles unchanged,
+    so the Nibble() enum constructor (which realises) is bypassed; 0 <= n < 16 is a precondition"""
+    from trie.typing import Nibbles
+    return tuple.__new__(Nibbles, path)
+
+
+def _desc(n):
+    return (int(n.node_type), tuple(tuple(s) for s in n.sub_segments), bytes(n.value), tuple(n.suffix))
+
+
+def _norm_raw(raw):
+    if isinstance(raw, (list, tuple)):
+        return [_norm_raw(x) for x in raw]
+    return bytes(raw)
+
+
+def _starts_any(path):
+    """does some stored key (as nibbles) start with path?  (independent of the tree walk)"""
+    n = len(path)
+    for k, _v in ITEMS:
+        kn = mpt.nibbles_of(k)
+        if len(kn) >= n and kn[:n] == tuple(path):
+            return True
+    return False
+
+
+def _outcome(fn):
+    """run a traversal, normalise result / TraversedPartialPath into a comparable tuple"""
+    from trie.exceptions import TraversedPartialPath
+    try:
+        n = fn()
+        return ("node", _desc(n), _norm_raw(n.raw))
+    except TraversedPartialPath as e:
+        return ("partial", tuple(e.nibbles_traversed), _desc(e.node), tuple(e.untraversed_tail), _desc(e.simulated_node), _norm_raw(e.simulated_node.raw))
+
+
+def _expected_outcome(tree, path):
+    (res, route) = mpt.locate(tree, path)
+    if res[0] == "node":
+        node = res[1]
+        return ("node", mpt.describe(node), _norm_raw(mpt.structure(node)))
+    _tag, node, prefix, tail = res
+    if node.kind == "leaf":
+        trimmed = node.path[len(tail):]
+        sim = (1, (), node.value, trimmed)
+        raw = [mpt.hp(trimmed, True), node.value]
+    else:
+        trimmed = node.path[len(tail):]
+        sim = (2, (trimmed,), b"", ())
+        raw = [mpt.hp(trimmed, False), _norm_raw(mpt.ref(node.child))]
+    return ("partial", tuple(prefix), mpt.describe(node), tuple(tail), sim, _norm_raw(raw))
+
+
+def _pre_path(path):
+    if len(path) > CFG["maxnib"]:
+        return False
+    for n in path:
+        if not 0 <= n <= 15:
+            return False
+    return True
+
+
+def h_traverse(path: List[int]) -> bool:
+    """
+    pre: _pre_path(path)
+    post: _
+    """
+    stubs.reset_caches()
+    t, _db = fresh_trie()
+    p = _sym_nibbles(path)
+    try:
+        got = _outcome(lambda: t.traverse(p))
+    except Exception as e:
+        return _fail(f"traverse raised {type(e).__name__}: {e}")
+    tree = TREE
+    exp = _expected_outcome(tree, tuple(path))
+    if got != exp:
+        return _fail(f"traverse gave {got!r}, the canonical trie has {exp!r}")
+    blank = got[0] == "node" and got[1][0] == 0
+    if blank != (not _starts_any(path)):
+        return _fail("blank result does not coincide with 'no stored key starts with the path'")
+    if len(path) == 0:
+        try:
+            rn = t.root_node
+        except Exception as e:
+            return _fail(f"root_node raised {type(e).__name__}")
+        if ("node", _desc(rn), _norm_raw(rn.raw)) != got:
+            return _fail("root_node differs from traverse(())")
+    COUNTERS["paths"] += 1
+    if got[0] == "partial":
+        COUNTERS["nontrivial"] += 1
+    if len(SAMPLES) < 2:
+        SAMPLES.append({"contents": [k.hex() for k, _ in ITEMS], "path": concrete(list(path)), "outcome": got[0]})
+    return True
+
+
+def r_traverse(path: List[int]) -> bool:
+    """
+    reachability twin: a traversal that ends strictly inside a leaf or extension
+    pre: _pre_path(path)
+    post: _
+    """
+    ok = h_traverse(path)
+    if ok:
+        tree = TREE
+        if mpt.locate(tree, tuple(path))[0][0] == "partial":
+            return False
+    return ok
+
+
+def h_traverse_from(path: List[int], split: int) -> bool:
+    """
+    traverse_from(traverse(prefix), seg) == traverse(prefix + seg), with at most one db read per child hop
+    pre: _pre_path(path) and 0 <= split <= len(path)
+    post: _
+    """
+    from trie.exceptions import TraversedPartialPath
+    stubs.reset_caches()
+    t, db = fresh_trie(stubs.CountingDict)
+    prefix, seg = path[:split], path[split:]
+    try:
+        start = t.traverse(_sym_nibbles(prefix))
+    except TraversedPartialPath:
+        return True          # no node exactly at prefix: nothing to traverse from
+    except Exception as e:
+        return _fail(f"traverse(prefix) raised {type(e).__name__}: {e}")
+    whole = _outcome(lambda: t.traverse(_sym_nibbles(path)))
+    db.reads = 0
+    try:
+        part = _outcome(lambda: t.traverse_from(start, _sym_nibbles(seg)))
+    except Exception as e:
+        return _fail(f"traverse_from raised {type(e).__name__}: {e}")
+    reads = db.reads
+    if part[0] == "partial":
+        part = ("partial", tuple(prefix) + part[1]) + part[2:]
+    if part != whole:
+        return _fail(f"traverse_from(node at prefix, segment) gave {part!r} but traverse(prefix+segment) gave {whole!r}")
+    # child hops: nodes entered after the start node, from the oracle's route
+    tree = TREE
+    r_whole = mpt.locate(tree, tuple(path))[1]
+    r_pref = mpt.locate(tree, tuple(prefix))[1]
+    hops = max(0, len(r_whole) - len(r_pref))
+    if reads > hops:
+        return _fail(f"traverse_from read the database {reads} times for {hops} child hops")
+    COUNTERS["paths"] += 1
+    if len(seg) > 0 and len(prefix) > 0:
+        COUNTERS["nontrivial"] += 1
+    return True
+
+
+WARM.update({
+    "h_traverse": lambda cfg: [([],), ([1],), ([1, 2, 3],), ([1, 2, 3, 4, 5],), ([1, 2, 3, 4, 5, 6, 7],)],
+    "r_traverse": lambda cfg: [([15],)],
+    "h_traverse_from": lambda cfg: [([1, 2, 3, 4], 1), ([1, 2, 3, 4, 5, 6], 3), ([], 0)],
+})
